@@ -62,6 +62,8 @@ typedef struct {
     pend_t mb[MAXMB]; int nmb;
     size_t batch_size; int batch_tmo;      /* batch_tmo: index into TMO[], 0 = none */
     int batch_fired;                        /* batch timer expired and not yet consumed */
+    int batch_due;                          /* batch timeout expired with events accumulated: everything sent before message #batch_due must be handed over by the end of the next dispatch */
+    int ba_unsure;                          /* batch settings changed while events were pending: which of them arrived under which settings is unknown */
     int ever_batched;                       /* a batch size/timeout was configured at some point since the module last (re)started */
     int stash[MAXEV]; int nst;              /* indices into EV[] */
     int hs[8]; int nhs;                     /* handler stack (ids 1..3) */
@@ -105,6 +107,9 @@ static void model_reset(void) {
     }
 }
 
+/* effective batch size: with only a timeout configured, normal-priority events never trigger by count */
+static size_t eff_batch(int s) { return MD[s].batch_size ? MD[s].batch_size : (MD[s].batch_tmo ? (size_t)-1 : 0); }
+static int last_dispatch_rc;
 static int slot_of(const m_mod_t *p) { for (int i = 0; i < NM; i++) if (MD[i].ptr == p && p && (MD[i].present || MD[i].extra > 0 || MD[i].st == S_ZOMBIE)) return i; return -1; }
 static int eligible_state(int s) { return MD[s].present && (MD[s].st == S_RUNNING || MD[s].st == S_PAUSED); }
 static int n_running(void) { int n = 0; for (int i = 0; i < NM; i++) if (MD[i].present && MD[i].st == S_RUNNING) n++; return n; }
@@ -170,7 +175,7 @@ static void mt_advance(void) {
         if (!t->used || !t->armed || t->next > shim_now_ns) continue;
         if (t->oneshot) t->armed = 0; else t->next += (1 + (shim_now_ns - t->next) / t->period) * t->period;
         if (t->src >= 0) MD[t->slot].src[t->src].fired = 1;
-        else if (t->src == -1) MD[t->slot].batch_fired = 1;
+        else if (t->src == -1) { MD[t->slot].batch_fired = 1; if (MD[t->slot].st == S_RUNNING && MD[t->slot].nmb) MD[t->slot].batch_due = nmsg; }
         else if (t->src == -3) tick_owed = 1;
     }
 }
